@@ -144,6 +144,9 @@ func ptrEq(a, b Ptr) bool {
 }
 
 func (m *Machine) ptrArith(op token.Token, p Ptr, t *Term, swapped bool) Value {
+	if !t.IsConst() && (op == token.ADD || op == token.SUB) {
+		t = m.st.Const(64, uint64(m.constInt(t, "pointer offset")))
+	}
 	switch op {
 	case token.ADD:
 		if t.IsConst() {
@@ -657,13 +660,11 @@ func (m *Machine) builtinTyped(b *ssa.Builtin, c *ssa.CallCommon, args []Value) 
 	case "Add": // unsafe.Add(ptr, len)
 		p := m.ptrOperand(args[0])
 		t := args[1].(*Term)
-		if !t.IsConst() {
-			m.unsupported("unsafe.Add with symbolic offset")
-		}
-		if p.ID == 0 && p.Off == 0 && t.K == 0 {
+		off := m.constInt(t, "unsafe.Add offset")
+		if p.ID == 0 && p.Off == 0 && off == 0 {
 			return p
 		}
-		p.Off += t.SVal()
+		p.Off += off
 		return p
 	case "String": // unsafe.String(ptr, len)
 		p := m.ptrOperand(args[0])
